@@ -564,7 +564,14 @@ func c03sStreams(t *testing.T, rec *vRecorder, rnd *vRand) {
 	for n := range corpus {
 		names = append(names, n)
 	}
-	sort.Strings(names)
+	// the histories with an un-notified deletion (a known deviation) run last
+	last := func(n string) bool { return strings.Contains(n, "purged") || strings.Contains(n, "deleted_while") }
+	sort.Slice(names, func(i, j int) bool {
+		if last(names[i]) != last(names[j]) {
+			return last(names[j])
+		}
+		return names[i] < names[j]
+	})
 	for _, n := range names {
 		for _, def := range []bool{true, false} {
 			c03sHistory(env(def), rec, "s_corpus_"+strings.SplitN(n, "_", 2)[0], corpus[n])
